@@ -512,6 +512,44 @@ pub fn gen(rng: &mut Rng, n: usize, sink: &mut Sink, focus: &str) {
                         }
                         gw.query(sink, "operator", &[]);
                     }
+                    4 if rng.chance(1, 2) => {
+                        // the owner upgrades the contract (same code): optional new operator, 0..2 new signer sets
+                        // registered without a proof; now and then a duplicate or malformed set, or extra junk
+                        let new_op = match rng.below(4) {
+                            0 | 1 => vec![0u8; 32],
+                            _ => user(rng.below(4) as u8),
+                        };
+                        let mut a = vec![b"gateway".to_vec(), vec![5u8, 6u8], new_op.clone()];
+                        let mut added = vec![];
+                        for _ in 0..rng.below(3) {
+                            let raw = if rng.chance(1, 6) {
+                                malformed_set(rng, &gw.keys)
+                            } else if rng.chance(1, 6) && !gw.sets.is_empty() {
+                                rng.pick(&gw.sets).enc(&gw.keys)
+                            } else {
+                                rand_set(rng, 6).enc(&gw.keys)
+                            };
+                            added.push(raw.clone());
+                            a.push(raw);
+                        }
+                        let out = gw.tx(sink, &gw.owner.clone(), "upgradeContract", &a);
+                        if out.starts_with("ok") {
+                            if !new_op.iter().all(|b| *b == 0) {
+                                gw.operator = new_op;
+                            }
+                            for raw in &added {
+                                if let Some(s) = parse_set(raw, &gw.keys) {
+                                    gw.sets.push(s);
+                                }
+                            }
+                        }
+                        gw.query(sink, "epoch", &[]);
+                        gw.query(sink, "operator", &[]);
+                        gw.query(sink, "lastRotationTimestamp", &[]);
+                        for raw in &added {
+                            gw.query(sink, "epochBySignerHash", &[keccak(raw)]);
+                        }
+                    }
                     4 => {
                         let caller = user(rng.below(4) as u8);
                         let plen = rng.below(80) as usize;
